@@ -118,3 +118,26 @@ def g_decode(r):
         return "rvparse %s %s %d %s" % (variant, exts, addr_for(r, variant), w.to_bytes(4, "little")[:n].hex() or "-")
     extra = bytes(r.randrange(256) for _ in range(r.randint(1, 5))) if q < 0.3 else b""
     return line(variant, exts, addr_for(r, variant), w, extra)
+
+
+def g_pair(r):
+    """C25: two words of the same table entry differing in a few free bits (one field), same address."""
+    variant = r.choice(["32", "64"])
+    exts = "ima"
+    rows = impl_rows(variant) if r.random() < 0.5 else [x for x in spec_rows() if (x["rv32"] if variant == "32" else x["rv64"])]
+    row = r.choice(rows)
+    w1 = fill(r, row)
+    free = ~row["mask"] & 0xffffffff
+    k = r.random()
+    if k < 0.15:
+        w2 = w1
+    elif k < 0.75:
+        # change one field: rd, rs1, rs2/shamt, funct7-ish / upper immediate bits
+        lo, n = r.choice([(7, 5), (15, 5), (20, 5), (25, 7), (12, 8), (20, 12), (31, 1), (25, 1), (26, 1)])
+        m = ((1 << n) - 1) << lo
+        w2 = (w1 & ~m) | (r.getrandbits(32) & m)
+        w2 = (row["match"] | (w2 & free)) & 0xffffffff
+    else:
+        w2 = fill(r, row)
+    return "rvpair %s %s %d %s %s" % (variant, exts, addr_for(r, variant), w1.to_bytes(4, "little").hex(),
+                                     w2.to_bytes(4, "little").hex())
